@@ -29,14 +29,16 @@ TECHNIQUE = "exhaustive decision-vector / failpoint schedule enumeration of gene
 RULE = (
     "case = statement skeleton over one variable (v = <distinct literal>, use(v), if/else, while c()/while True "
     "with bound break/for with else, break, continue, try/except E/else/finally, with (suppressing / not), return, "
-    "raise, boom(), nested def reading / nonlocal-writing v, global v); quick: EVERY junk-free skeleton with <=5 "
-    "statements (global mode <=4) and nesting <=3; thorough: the same plus random skeletons with 6-7 statements. "
-    "Junk-free = nothing after a statement that cannot complete, no trailing return/continue, no repeated use, "
-    "no dead store outside fault-protected regions, boom() only where something can intercept it; each tree is "
-    "generated once (dedupe by shape). Each skeleton is run under all decision vectors (DFS over the prefix tree, "
-    "<=18 decisions/run, <=2^14 runs, loops capped per entry at L=2 and again at L=3). Non-trivial = some use site "
-    "observes >=2 different outcomes (two assignments along different paths, or an assignment and UNBOUND); "
-    "distinct by skeleton shape."
+    "raise, boom(), nested def reading / nonlocal-writing v, global v), checked as a module of its own; quick: "
+    "EVERY junk-free skeleton with <=5 statements (global mode <=4) and nesting <=3, sharded by index; thorough: "
+    "the same plus 8000 random skeletons per shard with 6-7 statements. Junk-free = nothing after a statement that "
+    "cannot complete, no trailing return/continue, no repeated use, no dead store outside fault-protected regions, "
+    "boom() only where something can intercept it; each tree is generated once (dedupe by shape). Each skeleton is "
+    "run under all decision vectors (DFS over the prefix tree, <=18 decisions/run, <=2^14 runs, loops capped per "
+    "entry at L=2 and again at L=3; strict then liberal space). Non-trivial = some use site observes >=2 different "
+    "outcomes (two assignments along different paths, or an assignment and UNBOUND); distinct by skeleton shape. "
+    "A violating (assignment, use) pair is minimised by greedy deletion/unwrapping (<=200 re-checks) and the "
+    "mechanism key is read off the minimal witness."
 )
 LEVEL_TEXT = (
     "fault enumeration: all schedules of opaque decisions and injected faults of each skeleton are executed inside the "
@@ -69,9 +71,10 @@ FLOORS = {
                  "upper_decided": 80000, "lower_checks": 120000, "upper_checks": 100000},
 }
 NSHARDS = 16
-WATCHDOG_S = {"quick": 900, "thorough": 7200}
-BATCH = 1  # one module per skeleton: `global v` / a nonlocal whose binding comes later write to the MODULE scope,
-# so skeletons sharing a module contaminate each other (seen: Literal[1] revealed for a use before any assignment)
+WATCHDOG_S = {"quick": 2400, "thorough": 7200}  # ~35 CPU-s / ~170 CPU-s per shard; wall only ever => inconclusive
+# One module per skeleton (pa_reports is only ever given one): `global v`, and a `nonlocal v` whose binding comes
+# later, write to the MODULE scope, so skeletons sharing a module contaminate each other (seen: Literal[1] revealed
+# for a use before any assignment, because another function's nested def had "assigned" the module's v).
 MAX_DEC = 18
 MAX_RUNS = 1 << 14
 SHRINK_BUDGET = 200
@@ -366,7 +369,7 @@ def still_violates(mode, mbody, side, kind):
     if len(pu) != 1 or (kind == "literal" and len(pa) != 1):
         return None
     body = strip(mbody)
-    if not sk.valid(mode, body):
+    if not sk.valid(mode, body) or not sk.tidy(body):
         return None
     lits, sites = sk.number(body)
     site = sites[pu[0]]
@@ -503,25 +506,32 @@ KEY_DEPTH = 1  # how many constructs below the common ancestor name each side (d
 # variants of one defect multiply and the key set of a sampled run stops being the same for every seed)
 
 
-def _chain(path) -> str:
-    return "/".join(_role(r) for r, _ in path[:KEY_DEPTH]) or "plain"
+def _chain(path, through: bool = False) -> str:
+    """Name of one side: the first construct below the common ancestor.  With `through` (upper-bound keys), a
+    loop block further down that side names it instead: `while ...: v = 1 \n else: return` must sit in an
+    if/try/with for what follows to stay reachable, and that wrapper is not the mechanism."""
+    roles = [_role(r) for r, _ in path]
+    loops = [r for r in roles[1:] if r in ("loop-body", "loop-else", "wtrue-body")]
+    if through and roles and roles[0] not in ("loop-body", "loop-else", "wtrue-body") and loops:
+        return loops[0]
+    return "/".join(roles[:KEY_DEPTH]) or "plain"
 
 
-def relation(pa, pu, body=None) -> str:
+def relation(pa, pu, body=None, through: bool = False) -> str:
     """How the assignment at path pa sits relative to the use at path pu in a MINIMAL witness: the chains of
     constructs below their lowest common ancestor.  `while` and `for` share their else / second-visit handling
     in pyanalyze and are both called `loop`; `while True` takes another path there."""
     i = _common(pa, pu)
     if pa[i][0] == pu[i][0]:  # same block, different statements
         if pa[i][1] < pu[i][1]:
-            if (len(pa) > i + 1 and body is not None and pa[i + 1][0] not in ("while-body", "for-body", "wtrue-body")
+            if (len(pa) > i + 1 and body is not None and pa[i + 1][0] in ("if-body", "if-else")
                     and not _falls_through(body, pa[: i + 2])):
                 return f"back-edge@{_loop_of(pa[: i + 1])}"  # e.g. `if c(): v = 1; break` then the use
-            return f"{_chain(pa[i + 1:])}>after"
+            return f"{_chain(pa[i + 1:], through)}>after"
         return f"back-edge@{_loop_of(pa[: i + 1])}"  # the assignment is textually after the use
     a, u = _role(pa[i][0]), _role(pu[i][0])  # different blocks of one compound statement
     if (a, u) in _FORWARD or (a, u) == ("loop-else", "loop-body"):
-        return f"{_chain(pa[i:])}>{_chain(pu[i:])}"
+        return f"{_chain(pa[i:], through)}>{_chain(pu[i:], through)}"
     return f"back-edge@{_loop_of(pa[:i])}"  # e.g. if-body -> if-else: only around an enclosing loop
 
 
@@ -537,9 +547,9 @@ def mech_key(mode, mbody, side, kind) -> str:
         # the minimal witness needs the nonlocal-writing nested def: that is the mechanism
         return f"{side}|{kind}|nonlocal-def"
     if kind == "literal":
-        return f"{side}|{kind}|{pre}{relation(marked(mbody, 'A')[0], pu, strip(mbody))}"
+        return f"{side}|{kind}|{pre}{relation(marked(mbody, 'A')[0], pu, strip(mbody), side == 'upper')}"
     # unbound: no single assignment is to blame; name the construct the use sits in
-    return f"{side}|{kind}|{pre}use@{_role(pu[1][0]) if len(pu) > 1 else 'plain'}"
+    return f"{side}|{kind}|{pre}use@{_chain(pu[1:], side == 'upper')}"
 
 
 def classify(mode, body, raw):
